@@ -138,7 +138,7 @@ struct Exporter {
     else if (auto* X = dyn_cast<CXXDeleteExpr>(E)) { o["k"] = "Delete"; o["array"] = X->isArrayForm(); o["e"] = expr(X->getArgument()); }
     else if (auto* X = dyn_cast<CXXPseudoDestructorExpr>(E)) { o["k"] = "PseudoDtor"; o["b"] = expr(X->getBase()); }
     else if (auto* X = dyn_cast<CXXThrowExpr>(E)) { o["k"] = "Throw"; if (X->getSubExpr()) { o["what"] = ty(X->getSubExpr()->getType()); } }
-    else if (auto* X = dyn_cast<LambdaExpr>(E)) { o["k"] = "Lambda"; o["body"] = stmt(X->getBody()); J::Array caps; for (auto& c : X->captures()) if (c.capturesVariable()) caps.push_back(J::Object{{"n", c.getCapturedVar()->getNameAsString()}, {"d", idOf(c.getCapturedVar())}, {"byref", c.getCaptureKind() == LCK_ByRef}}); o["caps"] = std::move(caps); }
+    else if (auto* X = dyn_cast<LambdaExpr>(E)) { o["k"] = "Lambda"; o["body"] = stmt(X->getBody()); J::Array caps; for (auto& c : X->captures()) if (c.capturesVariable()) caps.push_back(J::Object{{"n", c.getCapturedVar()->getNameAsString()}, {"d", idOf(c.getCapturedVar())}, {"byref", c.getCaptureKind() == LCK_ByRef}}); o["caps"] = std::move(caps); J::Array lps; if (auto* CO = X->getCallOperator()) for (auto* P : CO->parameters()) lps.push_back(J::Object{{"n", P->getNameAsString()}, {"d", idOf(P)}, {"t", P->getType().getAsString()}}); o["params"] = std::move(lps); }
     else if (auto* X = dyn_cast<InitListExpr>(E)) { o["k"] = "InitList"; J::Array a; for (auto* I : X->inits()) a.push_back(expr(I)); o["args"] = std::move(a); }
     else if (auto* X = dyn_cast<CXXScalarValueInitExpr>(E)) { (void)X; o["k"] = "ZeroInit"; }
     else if (auto* X = dyn_cast<CXXStdInitializerListExpr>(E)) { o["k"] = "StdInitList"; o["e"] = expr(X->getSubExpr()); }
